@@ -412,8 +412,10 @@ func sortedKeysA[V any](m map[string]V) []string {
 // populateDirCopy copies a store directory (master = copy of the replica's content).
 func (w *AWorld) populateDirCopy(from, to string) {
 	w.fs.PutDir(to, 0o700)
-	for p, e := range w.fs.Snapshot(from) {
-		if e.Kind == "file" {
+	snap := w.fs.Snapshot(from)
+	for _, p := range sortedKeysA(snap) {
+		// the records only: a temporary file of an operation in flight is not part of the store
+		if e := snap[p]; e.Kind == "file" && !strings.Contains(strings.TrimPrefix(p, from), "/.tmp/") {
 			w.fs.Put(to+strings.TrimPrefix(p, from), []byte(e.Data), e.Perm)
 		}
 	}
